@@ -69,6 +69,10 @@ class PhaseShift():
         for i, dim in enumerate(self.periodic):
             points_t[:, dim] = (points_t[:, dim] + (-1 if inverse else +1) *
                                 (-self.centers[i] + 0.5)) % 1
+            # The modulo of a tiny negative number rounds to exactly 1. Wrap
+            # it around such that the result is always in [0, 1).
+            points_t[:, dim] = np.where(
+                points_t[:, dim] >= 1, 0, points_t[:, dim])
         return points_t
 
     def write(self, group):
